@@ -11,7 +11,7 @@ open Chf Chf.Driver
 structure DState where
   abmf : Abmf.Store := []
   rf : List Rating.Tariff := []
-  chf : Charging.State := {}
+  chf : ChfSt := ({}, [])
 
 def step (s : DState) (line : String) : DState × String :=
   match (line.trimAscii.toString.splitOn " ").filter (· ≠ "") with
